@@ -36,6 +36,9 @@ OPS = [
     ("install_1.0.0", ["plugin", "install", "simtest@1.0.0"], "1.0.0"),
     ("install_from_config", ["plugin", "install"], None),
     ("repository_add", ["plugin", "repository", "add", "http://verif.local/extra/repo.json"], None),
+    # the first install of a different plugin: no configured database uses it, but a half-made directory of it is
+    # seen by every later start-up (plugin discovery lists all installed plugins)
+    ("install_other", ["plugin", "install", "other"], None),
 ]
 SHORT_TMP = tempfile.mkdtemp(prefix="vp", dir="/tmp")  # unix socket paths must stay short
 
@@ -336,8 +339,8 @@ def run_once(r):
 
 
 ENUM_POINTS, ENUM_MODES = 18, 5
-ENUM_PDIRS = 2  # default directory / OCTOSQL_PLUGIN_DIR with a trailing slash
-QUICK_CORE = 2 * 3 * ENUM_POINTS
+ENUM_PDIRS = 1  # the enumeration uses the default plugin directory; OCTOSQL_PLUGIN_DIR variants are sampled
+QUICK_CORE = 2 * 3 * ENUM_POINTS + ENUM_POINTS
 ENUM_TOTAL = len(INITIALS) * len(CONFIGS) * len(OPS) * ENUM_POINTS * ENUM_MODES * ENUM_PDIRS
 
 
@@ -350,6 +353,9 @@ def enumerate_tape(run, tier):
         # over an installed, configured v1, killed at every crash point in turn
         if run >= QUICK_CORE:
             return None
+        if run >= 2 * 3 * ENUM_POINTS:
+            # ... and the first install of another plugin next to it
+            return [1, 1, 5, 0, 0, 0, 0, 0] + [1, (run - 2 * 3 * ENUM_POINTS) % ENUM_POINTS, 0, 0, 0, 0, 0]
         e = run
         cfg, e = [1, 3][e % 2], e // 2
         op, e = e % 3, e // 3
